@@ -198,8 +198,18 @@ inline int mainLoop(int argc, char **argv, int timeoutMs,
   auto cases = readCases(argv[argc - 2]);
   FILE *out = fopen(argv[argc - 1], "wb");
   if (!out) { perror(argv[argc - 1]); return 3; }
+  // A tree that hangs on a large share of the inputs would otherwise cost timeout x cases: after a number of
+  // watchdog firings the remaining cases of this worker are reported as "skipped" (counted, never judged).
+  int maxTimeouts = getenv("VERIF_MAX_TIMEOUTS") ? atoi(getenv("VERIF_MAX_TIMEOUTS")) : 12;
+  int timeouts = 0;
   for (auto &c : cases) {
+    if (timeouts >= maxTimeouts) {
+      Json j; j.str("id", c.id).str("status", "skipped").raw("out", "null").str("err", "");
+      fputs(j.done().c_str(), out); fputc('\n', out);
+      continue;
+    }
     ChildResult r = runForked([&]() { return fn(c); }, timeoutMs);
+    if (r.status == "timeout") timeouts++;
     Json j;
     j.str("id", c.id).str("status", r.status);
     if (!r.out.empty() && r.out[0] == '{') j.raw("out", r.out); else j.raw("out", "null");
